@@ -5,6 +5,35 @@ import PlumVerif.Model.Schedule
 import PlumVerif.Props.TieSchedule
 import PlumVerif.Props.TieStructParams
 import PlumVerif.Props.TieStructSensors
+/-
+Tie: the Lean definitions translated from the SOURCE TEXT of structures/schedules.py
+
+  SchedulesStructure._unpack_schedule   = Sched.decodeWeek on the 42 bytes at `self._offset`            (unpack_schedule_eq)
+  SchedulesStructure.decode             = Sched.decodeResponse on `message[offset:]`                    (schedules_decode_eq)
+  SchedulesStructure.encode             = `[1, idx, switch, parameter] ++ Sched.encodeWeek week`         (schedules_encode_eq)
+                                          = the payload of Sched.Device.commit / Req.payload             (encode_is_commit_payload)
+  SCHEDULES                             = Gen.schedules                                                  (schedules_tbl)
+
+(Generated/PyCode.lean, rewritten by tools/py2lean.py on every run; `_split_byte` / `_join_bits` are tied in Props/TieSchedule.lean)
+against the codec of Model/Schedule.lean, the functions the C18 theorems `decode_encode` / `encode_decode` / `commit_payload`,
+the C02 bitmap layout and the C05 schedules round trip are about.
+
+Hypotheses, exactly.  decode / _unpack_schedule: every message, every NATURAL offset (negative offsets run in the translated
+code and are not covered), every instance, every `data` that is `None` or a string-keyed dict; the instance (`_offset`) after a
+successful call only.  The decoded `schedules` list is the rendering (`schedV`) of the model's entries; the
+`schedule_parameters` list is stated from the raw bytes (`rawParams` / `paramsOfEntry`, with `P2.unpackParam`, the model of
+`unpack_parameter` tied in TieParams): the model's `Entry` keeps the switch and the parameter VALUE only, not min / max.
+A message with fewer than 3 bytes from the offset on: `{"schedules": []}`, offset unchanged, no `schedule_parameters` key.
+encode: `data` a string-keyed dict whose `type` is a name of the table, `switch` and `parameter` ints in 0..255 (a bool, a
+`Parameter` object or text given to `int(…)` are NOT covered: the prelude declines text / objects), `schedule` a list of days,
+each a list of bools, of ANY number and lengths.  Error side: a missing key or an unknown name is `FrameDataError`
+(`encode_missing_type`, `encode_unknown_type`; the other error classes are validated against CPython by harness/pycode.py only).
+
+Generic lemmas about the new translator constructs: `listComp_all` / `listComp_map` (comprehension = map, first failing element
+decides), `flatten_lists` (several `for` clauses), `chunks_idx` + `rangeStep_nat` + `comp_chunks(_g)`
+(`[G(l[i:i+n]) for i in range(0, len(l), n)]` = `(chunks n l).map g`), `bytearray_bytes`, `sched_fold` (the loop with two
+own lists and the instance as state), `seqIndexFrom_str` (`tuple.index`).
+-/
 namespace PlumVerif.TieStructSchedules
 open PlumVerif.Py PlumVerif.TieParams PlumVerif.TieStructParams PlumVerif.TieStructSensors PlumVerif.Sched
 set_option linter.unusedSimpArgs false
@@ -413,5 +442,289 @@ theorem schedules_decode_eq (c : String) (ks : List String) (vs : List V) (msg :
           cases hu : P2.unpackParam 1 [pv, pmin, pmax] with
           | none => simp [paramsOfEntry, hu, tripleV, Py.mkobj]
           | some t => simp [paramsOfEntry, hu, tripleV, Py.mkobj, bind_ok, add_int', cast_add_one, list_append_list, slotV]
+
+/-! ### `encode` -/
+
+theorem chunkIdx_lt (n len i : Nat) (hn : 0 < n) (h : i ∈ chunkIdx n len) : i < len := by
+  unfold chunkIdx at h
+  obtain ⟨k, hk, rfl⟩ := List.mem_map.mp h
+  have hk' : k + 1 ≤ (len + n - 1) / n := by have := List.mem_range.mp hk; omega
+  have := (Nat.le_div_iff_mul_le hn).mp hk'
+  have e : (k + 1) * n = k * n + n := Nat.succ_mul k n
+  omega
+
+/-- `[G(l[i : i + n]) for i in range(0, len(l), n)]` over the model's `chunks n l` (continuation form) -/
+theorem comp_chunks_g {α : Type} (n : Nat) (hn : 0 < n) (l : List V) (f : V → PyM (Option V)) (G : V → PyM (Option V))
+    (g : List V → V) (K : V → PyM α)
+    (hf : ∀ i : Nat, f (.int (i : Int)) = (do let t ← Py.add (.int (i : Int)) (.int (n : Int)); let u ← Py.slice (.list l) (.int (i : Int)) t; G u))
+    (hG : ∀ i : Nat, i < l.length → G (.list ((l.drop i).take n)) = .ok (some (g ((l.drop i).take n)))) :
+    (do let t10 ← Py.len (.list l)
+        let t11 ← Py.rangeStep (.int 0) t10 (.int (n : Int))
+        let t14 ← Py.listComp t11 f
+        K t14) = K (.list ((chunks n l).map g)) := by
+  simp only [Py.len, pure_eq_ok, bind_ok, rangeStep_nat _ _ hn]
+  rw [listComp_map f (fun v => match v with | .int i => g ((l.drop i.toNat).take n) | _ => .none)]
+  · rw [chunks_idx n hn, bind_ok]
+    simp [List.map_map, Function.comp_def]
+  · intro x hx
+    obtain ⟨i, hi, rfl⟩ := List.mem_map.mp hx
+    rw [hf, add_int', ← Int.natCast_add, bind_ok, slice_list_nat, bind_ok, hG i (chunkIdx_lt n _ i hn hi)]
+    simp
+
+theorem byteItem_of_asInt (v : V) (n : Nat) (h : asInt? v = some (n : Int)) (hn : n < 256) :
+    Py.byteItem v = .ok (byteV n.toUInt8) := by
+  have h0 : (0 : Int) ≤ (n : Int) ∧ (n : Int) < 256 := by omega
+  cases v <;> simp [asInt?] at h
+  · subst h; simp [Py.byteItem, Py.byteOfV, asInt?, h0, bind_ok]
+  · rename_i b
+    simp [Py.byteItem, Py.byteOfV, asInt?, h, h0, bind_ok]
+
+/-- one byte of the bitmap: eight (or fewer, at the end of a day whose length is no multiple of 8) slots joined -/
+theorem join_item (bits : List Bool) (h : bits ≠ []) (hl : bits.length ≤ 8) :
+    (do let t19 ← PyCode.join_bits (.list (bits.map V.bool)); let t20 ← Py.byteItem t19; pure (some t20) : PyM (Option V))
+      = .ok (some (byteV (joinBits bits).toUInt8)) := by
+  obtain ⟨v, hv, ha⟩ := TieSchedule.join_bits_eq bits h
+  have hlt : joinBits bits < 256 := by
+    have := TieSchedule.joinBits_lt bits
+    have : 2 ^ bits.length ≤ 2 ^ 8 := Nat.pow_le_pow_right (by omega) hl
+    omega
+  rw [hv, bind_ok, byteItem_of_asInt v _ ha hlt, bind_ok]
+  rfl
+
+def vbool : V → Bool
+  | .bool b => b
+  | _ => false
+
+theorem map_vbool (bs : List Bool) : (bs.map V.bool).map vbool = bs := by
+  induction bs with
+  | nil => rfl
+  | cons b bs ih => simp [vbool, ih]
+
+@[simp] theorem map_vbool' (a : List Bool) : List.map (fun x => vbool (V.bool x)) a = a := by simp [vbool]
+@[simp] theorem map_vbool'' (a : List Bool) : List.map (vbool ∘ V.bool) a = a := map_vbool' a
+
+theorem c8 : (V.int 8) = .int ((8 : Nat) : Int) := rfl
+
+/-- the bytes of one day, as the inner clause of the generator expression produces them -/
+theorem day_comp (d : List Bool) :
+    (do let t15 ← Py.len (.list (d.map V.bool))
+        let t16 ← Py.rangeStep (.int 0) t15 (.int 8)
+        let t21 ← Py.listComp t16 (fun v_i => (do
+            let t17 ← Py.add v_i (.int 8)
+            let t18 ← Py.slice (.list (d.map V.bool)) v_i t17
+            let t19 ← PyCode.join_bits t18
+            let t20 ← Py.byteItem t19
+            pure (some t20) : PyM (Option V)))
+        pure (some t21) : PyM (Option V))
+      = .ok (some (.list ((encodeDay d).map byteV))) := by
+  rw [c8, comp_chunks_g 8 (by omega) (d.map V.bool) _
+    (fun u => (do let t19 ← PyCode.join_bits u; let t20 ← Py.byteItem t19; pure (some t20) : PyM (Option V)))
+    (fun c => byteV (joinBits (c.map vbool)).toUInt8) _ (fun i => rfl)]
+  · rw [chunks_map 8 (by omega)]
+    simp [encodeDay, List.map_map, Function.comp_def, map_vbool]
+  · intro i hi
+    have hi' : i < d.length := by simpa using hi
+    rw [← List.map_drop, ← List.map_take, map_vbool]
+    apply join_item
+    · intro h
+      have : ((d.drop i).take 8).length = 0 := by rw [h]; rfl
+      simp at this
+      omega
+    · simp; omega
+
+theorem bytearray_fold (bs : List UInt8) (acc : List UInt8) :
+    (bs.map byteV).foldlM (fun (acc : List UInt8) x => do pure ((← Py.byteOfV x) :: acc)) acc = (.ok (bs.reverse ++ acc) : PyM (List UInt8)) := by
+  induction bs generalizing acc with
+  | nil => rfl
+  | cons b bs ih =>
+    have hb : Py.byteOfV (byteV b) = .ok b := by
+      have h1 : (0 : Int) ≤ (b.toNat : Int) ∧ (b.toNat : Int) < 256 := by have := b.toNat_lt; omega
+      simp [Py.byteOfV, byteV, asInt?, h1]
+    rw [List.map_cons, List.foldlM_cons, hb]
+    simp only [bind_ok, pure_bind]
+    rw [ih]; simp
+
+theorem bytearray_bytes (bs : List UInt8) : Py.bytearray (.list (bs.map byteV)) = .ok (.bytes bs) := by
+  unfold Py.bytearray
+  dsimp only
+  erw [bytearray_fold]
+  simp [bind_ok]
+
+/-- the bitmap part: every day in order, eight slots a byte (`Sched.encodeWeek`), for days of ANY length -/
+theorem week_comp (w : List (List Bool)) :
+    (do let t22 ← Py.listComp (weekV w) (fun v_day => (do
+            let t15 ← Py.len v_day
+            let t16 ← Py.rangeStep (.int 0) t15 (.int 8)
+            let t21 ← Py.listComp t16 (fun v_i => (do
+                let t17 ← Py.add v_i (.int 8)
+                let t18 ← Py.slice v_day v_i t17
+                let t19 ← PyCode.join_bits t18
+                let t20 ← Py.byteItem t19
+                pure (some t20) : PyM (Option V)))
+            pure (some t21) : PyM (Option V)))
+        let t23 ← Py.flatten t22
+        Py.bytearray t23) = .ok (.bytes (encodeWeek w)) := by
+  unfold weekV
+  rw [listComp_map _ (fun v => match v with | .list bs => .list ((encodeDay (bs.map vbool)).map byteV) | _ => .none)]
+  · rw [bind_ok]
+    have : (w.map fun d => V.list (d.map V.bool)).map (fun v => match v with
+        | .list bs => V.list ((encodeDay (bs.map vbool)).map byteV) | _ => V.none)
+        = (w.map fun d => (encodeDay d).map byteV).map V.list := by
+      simp [List.map_map, Function.comp_def, map_vbool]
+    rw [this, flatten_lists, bind_ok]
+    have e : (w.map fun d => (encodeDay d).map byteV).flatten = (encodeWeek w).map byteV := by
+      simp [encodeWeek, List.flatMap, List.map_flatten, List.map_map, Function.comp_def]
+    rw [e, bytearray_bytes]
+  · intro x hx
+    obtain ⟨d, _, rfl⟩ := List.mem_map.mp hx
+    rw [day_comp d]
+    simp [map_vbool]
+
+theorem week_comp_k {α : Type} (w : List (List Bool)) (K : V → PyM α) :
+    (do let t22 ← Py.listComp (weekV w) (fun v_day => (do
+            let t15 ← Py.len v_day
+            let t16 ← Py.rangeStep (.int 0) t15 (.int 8)
+            let t21 ← Py.listComp t16 (fun v_i => (do
+                let t17 ← Py.add v_i (.int 8)
+                let t18 ← Py.slice v_day v_i t17
+                let t19 ← PyCode.join_bits t18
+                let t20 ← Py.byteItem t19
+                pure (some t20) : PyM (Option V)))
+            pure (some t21) : PyM (Option V)))
+        let t23 ← Py.flatten t22
+        let t24 ← Py.bytearray t23
+        K t24) = K (.bytes (encodeWeek w)) := by
+  have := congrArg (fun m => m >>= K) (week_comp w)
+  simp only [bind_assoc, bind_ok] at this
+  exact this
+
+/-- `SCHEDULES` folded from the SOURCE TEXT of structures/schedules.py = the table the model uses (`Gen.schedules`) -/
+theorem schedules_tbl : PyCode.c_SCHEDULES = .tuple (Gen.schedules.map V.str) := rfl
+
+theorem seqIndexFrom_str (name : String) (l : List String) (k : Nat) (h : name ∈ l) :
+    Py.seqIndexFrom (.str name) (l.map V.str) k = .ok (.int ((k + l.idxOf name : Nat) : Int)) := by
+  induction l generalizing k with
+  | nil => simp at h
+  | cons x xs ih =>
+    by_cases hx : x = name
+    · subst hx
+      simp [Py.seqIndexFrom, Py.eqB, bind_ok, List.idxOf_cons_self]
+    · have hm : name ∈ xs := by
+        rcases List.mem_cons.mp h with h | h
+        · exact absurd h.symm hx
+        · exact h
+      have hne : (x == name) = false := by simpa using hx
+      simp only [List.map_cons, Py.seqIndexFrom, Py.eqB, pure_eq_ok, bind_ok, hne, Bool.false_eq_true, if_false, ih (k + 1) hm]
+      have : List.idxOf name (x :: xs) = List.idxOf name xs + 1 := by simp [List.idxOf_cons, hne]
+      rw [this]
+      congr 3; omega
+
+theorem int_to_bytes_one (n : Nat) (h : n < 256) :
+    Py.int_to_bytes (.int (n : Int)) (.int 1) (.str "little") = .ok (.bytes [n.toUInt8]) := by
+  have h1 : ¬ ((n : Int) < 0) := by omega
+  have h2 : ¬ (n ≥ 256 ^ 1) := by omega
+  have h3 : n % 256 = n := Nat.mod_eq_of_lt h
+  simp [Py.int_to_bytes, h1, h2, Py.encodeLE, h3]
+
+theorem index_dict (dk : List String) (dv : List V) (k : String) (v : V) (h : lookup dk dv k = some v) :
+    Py.index (.dict dk dv) (.str k) = .ok v := by
+  simp [Py.index, h]
+
+theorem add_bytes (x y : List UInt8) : Py.add (.bytes x) (.bytes y) = .ok (.bytes (x ++ y)) := rfl
+theorem bytearray_of_bytes (b : List UInt8) : Py.bytearray (.bytes b) = .ok (.bytes b) := rfl
+theorem tryExcept_pure {α : Type} (a : α) (cs : List Catch) (h : PyM α) : Py.tryExcept (pure a) cs h = .ok a := rfl
+theorem int_int (i : Int) : Py.int_ (.int i) = .ok (.int i) := rfl
+
+/-- **`SchedulesStructure.encode(data)`** for a `data` dict that names a schedule of the table (`type`, at position `idx`),
+holds a switch and a parameter that are ints below 256 and a week of days of ANY lengths (bools): the payload the model's
+`Device.commit` / `Req.payload` send — `01, idx, switch, parameter`, then `Sched.encodeWeek` -/
+theorem schedules_encode_eq (dk : List String) (dv : List V) (name : String) (sw p : Nat) (w : List (List Bool))
+    (hname : name ∈ Gen.schedules) (hsw : sw < 256) (hp : p < 256)
+    (h1 : lookup dk dv "type" = some (.str name)) (h2 : lookup dk dv "switch" = some (.int (sw : Int)))
+    (h3 : lookup dk dv "parameter" = some (.int (p : Int))) (h4 : lookup dk dv "schedule" = some (weekV w)) :
+    PyCode.SchedulesStructure_encode (.dict dk dv)
+      = .ok (.bytes ([1, (Gen.schedules.idxOf name).toUInt8, sw.toUInt8, p.toUInt8] ++ encodeWeek w)) := by
+  unfold PyCode.SchedulesStructure_encode
+  have hidx : Gen.schedules.idxOf name < 256 := by
+    have : Gen.schedules.idxOf name < Gen.schedules.length := List.idxOf_lt_length_of_mem hname
+    have : Gen.schedules.length = 40 := rfl
+    omega
+  have hs : Py.seq_index PyCode.c_SCHEDULES (.str name) = .ok (.int ((Gen.schedules.idxOf name : Nat) : Int)) := by
+    rw [schedules_tbl]
+    have := seqIndexFrom_str name Gen.schedules 0 hname
+    simpa [Py.seq_index] using this
+  have hw := week_comp w
+  simp only [PyCode.c_ATTR_TYPE, PyCode.c_ATTR_SWITCH, PyCode.c_ATTR_PARAMETER, PyCode.c_ATTR_SCHEDULE,
+    index_dict _ _ _ _ h1, index_dict _ _ _ _ h2, index_dict _ _ _ _ h3, index_dict _ _ _ _ h4, bind_ok, hs, attr_to_bytes_int,
+    int_to_bytes_one _ hidx, int_to_bytes_one _ hsw, int_to_bytes_one _ hp, int_int, pure_bind, add_bytes, bytearray_of_bytes, tryExcept_ok, tryExcept_pure]
+  rw [week_comp_k w]
+  simp [add_bytes]
+
+/-- what `Schedule.commit()` queues (`Sched.Device.commit`, the function `C18.commit_payload` is about) is the translated
+`encode` of the collected data: index = position of the name in the table, switch, parameter, the week Sunday first -/
+theorem encode_is_commit_payload (dev : Device) (idx : Nat) (payload : List UInt8) (dk : List String) (dv : List V)
+    (w : Week) (sw p : Nat) (name : String)
+    (hw : dictGet dev.schedules idx = some w) (hs : dictGet dev.switches idx = some sw) (hpp : dictGet dev.params idx = some p)
+    (hname : name ∈ Gen.schedules) (hidx : Gen.schedules.idxOf name = idx) (hsw : sw < 256) (hp : p < 256)
+    (h1 : lookup dk dv "type" = some (.str name)) (h2 : lookup dk dv "switch" = some (.int (sw : Int)))
+    (h3 : lookup dk dv "parameter" = some (.int (p : Int))) (h4 : lookup dk dv "schedule" = some (weekV w.toTable)) :
+    (dev.commit idx).map V.bytes = (PyCode.SchedulesStructure_encode (.dict dk dv)).toOption := by
+  rw [schedules_encode_eq dk dv name sw p w.toTable hname hsw hp h1 h2 h3 h4]
+  simp [Device.commit, hw, hs, hpp, hidx, Except.toOption]
+
+theorem encode_missing_type (dk : List String) (dv : List V) (h : lookup dk dv "type" = none) :
+    PyCode.SchedulesStructure_encode (.dict dk dv) = .error .FrameDataError := by
+  unfold PyCode.SchedulesStructure_encode
+  have : Py.index (.dict dk dv) PyCode.c_ATTR_TYPE = .error .KeyError := by simp [Py.index, PyCode.c_ATTR_TYPE, h]
+  rw [this]
+  rfl
+
+theorem seqIndexFrom_absent (name : String) (l : List String) (k : Nat) (h : name ∉ l) :
+    Py.seqIndexFrom (.str name) (l.map V.str) k = .error .ValueError := by
+  induction l generalizing k with
+  | nil => rfl
+  | cons x xs ih =>
+    have hx : ¬ x = name := fun e => h (by simp [e])
+    have hm : name ∉ xs := fun e => h (List.mem_cons_of_mem _ e)
+    have hne : (x == name) = false := by simpa using hx
+    simp only [List.map_cons, Py.seqIndexFrom, Py.eqB, pure_eq_ok, bind_ok, hne, Bool.false_eq_true, if_false, ih (k + 1) hm]
+
+theorem encode_unknown_type (dk : List String) (dv : List V) (name : String) (h : lookup dk dv "type" = some (.str name))
+    (hn : name ∉ Gen.schedules) : PyCode.SchedulesStructure_encode (.dict dk dv) = .error .FrameDataError := by
+  unfold PyCode.SchedulesStructure_encode
+  have h1 : Py.index (.dict dk dv) PyCode.c_ATTR_TYPE = .ok (.str name) := by simp [Py.index, PyCode.c_ATTR_TYPE, h]
+  have h2 : Py.seq_index PyCode.c_SCHEDULES (.str name) = .error .ValueError := by
+    rw [schedules_tbl]; exact seqIndexFrom_absent name Gen.schedules 0 hn
+  rw [h1, bind_ok, h2]
+  rfl
+
+/-! ### non-vacuity -/
+
+set_option maxRecDepth 16384 in
+/-- one entry: index 2, switch 1, parameter (20, 5, 30), a week whose first byte is 0x80 (Sunday 00:00-00:30 on) -/
+example : (PyCode.SchedulesStructure_decode (Py.mkobj "self" [])
+      (.bytes ([9, 0, 1, 2, 1, 20, 5, 30, 0x80] ++ List.replicate 41 0)) (.int 0) .none).map (fun r => r.1)
+    = .ok (.tuple [.dict ["schedules", "schedule_parameters"]
+        [.list [.tuple [.int 2, weekV ((true :: List.replicate 47 false) :: List.replicate 6 (List.replicate 48 false))]],
+         .list [.tuple [.int 4, tripleV (1, 0, 1)], .tuple [.int 5, tripleV (20, 5, 30)]]], .int 50]) := rfl
+set_option maxRecDepth 16384 in
+/-- the parameter triple undefined: only the switch is listed -/
+example : (PyCode.SchedulesStructure_decode (Py.mkobj "self" [])
+      (.bytes ([9, 0, 1, 7, 0, 255, 255, 255] ++ List.replicate 42 0)) (.int 0) .none).map (fun r => match r.1 with
+        | .tuple [.dict _ [_, ps], o] => V.tuple [ps, o] | v => v)
+    = .ok (.tuple [.list [.tuple [.int 14, tripleV (0, 0, 1)]], .int 50]) := rfl
+/-- two bytes only: no schedules, offset unchanged -/
+example : (PyCode.SchedulesStructure_decode (Py.mkobj "self" []) (.bytes [9, 0]) (.int 0) .none).map (fun r => r.1)
+    = .ok (.tuple [.dict ["schedules"] [.list []], .int 0]) := rfl
+/-- the bitmap cut short -/
+example : (PyCode.SchedulesStructure_decode (Py.mkobj "self" []) (.bytes ([9, 0, 1, 2, 1, 20, 5, 30] ++ List.replicate 41 0)) (.int 0) .none).map (fun r => r.1)
+    = .error .IndexError := rfl
+set_option maxRecDepth 16384 in
+/-- encode: schedule "circulation_pump" (index 2), a week of two short days (8 and 3 slots) -/
+example : PyCode.SchedulesStructure_encode (.dict ["type", "switch", "parameter", "schedule"]
+      [.str "circulation_pump", .int 1, .int 20, weekV [[true, false, false, false, false, false, false, true], [true, true, false]]])
+    = .ok (.bytes [1, 2, 1, 20, 0x81, 6]) := rfl
+example : PyCode.SchedulesStructure_encode (.dict ["type", "switch", "parameter", "schedule"] [.str "nope", .int 1, .int 20, .list []])
+    = .error .FrameDataError := rfl
 
 end PlumVerif.TieStructSchedules
